@@ -69,6 +69,7 @@ JudgeFile(e) ==
     IF ~e.ok THEN Prop("C20_ImportAndRun")
     ELSE IF ~(SolverNames \subseteq Range(e.globals)) THEN Drift("C20_ResolvesSolverNames")
     ELSE IF ~ObsClosed(e) THEN Drift("C20_Closed")
+    ELSE IF ~IteratorEvaluates(parser, [iterReads |-> e.iterReads]) THEN Drift("C20_IteratorEvaluatesEquations")
     ELSE IF ~(e.loopAfterPack \/ Range(NamesOf(e.pack)) \cap LoopNames = {}) THEN Drift("C20_LoopStateOwn")
     ELSE IF Range(NamesOf(e.pack)) \cap ModuleOwnNames # {} \/ NewCollision(Range(NamesOf(e.pack)))
          THEN Drift("C20_NoNameCapture")
